@@ -15,7 +15,7 @@ func c09Sizes() []int64 { return []int64{0, 1, 2047, 2048, 2049} }
 func TestC09(t *testing.T) {
 	r := NewReporter(t)
 	defer r.Done()
-	r.Rule("every tree with <= N nodes (file sizes 0,1,2047,2048,2049), both modes for a subset, plus the directory-shape families of C07 (entries per directory, exact sector fit, depth, many directories, symbolic links) with a reduced offset set: canonical image = one sequential read; then all single ops and op sequences of depth <= 3 (Seek.Read.Read, Read.ReadAt.Read, relative/end seeks) over offsets = structural boundaries (metadata end, each file start/end/padded end, pad-area start, size) +-1 and lengths {1,2,2047,2048,2049,65536,65537, to-next-boundary +-1}; oracle = bytes.Reader semantics over the canonical image; distinct by (tree, mode, op sequence)")
+	r.Rule("every tree with <= N nodes (file sizes 0,1,2047,2048,2049), both modes for a subset, plus the directory-shape families of C07 (entries per directory, exact sector fit, depth, many directories, symbolic links) with a reduced offset set: canonical image = one sequential read; then all single ops and op sequences of depth <= 3 (Seek.Read.Read, Read.ReadAt.Read, relative/end seeks, refused seeks followed by reads) over offsets = structural boundaries (metadata end, each file start/end/padded end, pad-area start, size) +-1 and lengths {1,2,2047,2048,2049,65536,65537, to-next-boundary +-1}; oracle = bytes.Reader semantics over the canonical image; distinct by (tree, mode, op sequence)")
 	base := filepath.Join(scratchBase(), sprintf("verifh-c09-%d", os.Getpid()))
 	root := filepath.Join(base, "root")
 	defer os.RemoveAll(base)
@@ -196,6 +196,15 @@ func c09Case(r *Reporter, root, desc string, treeRep any, build func(dir string)
 	run([]ioOp{{Kind: "seek", Off: 0, Whence: io.SeekEnd}, {Kind: "read", N: 10}})
 	run([]ioOp{{Kind: "seek", Off: -1, Whence: io.SeekEnd}, {Kind: "read", N: 10}, {Kind: "read", N: 10}})
 	run([]ioOp{{Kind: "seek", Off: -1, Whence: io.SeekStart}})
+	// a refused seek leaves the cursor where it was: reads, relative seeks and positional reads afterwards
+	for _, off := range offs {
+		if off > announced {
+			continue
+		}
+		run([]ioOp{{Kind: "seek", Off: off, Whence: io.SeekStart}, {Kind: "seek", Off: -1, Whence: io.SeekStart}, {Kind: "read", N: 2049}})
+		run([]ioOp{{Kind: "seek", Off: off, Whence: io.SeekStart}, {Kind: "seek", Off: -off - 7, Whence: io.SeekCurrent}, {Kind: "seek", Off: 0, Whence: io.SeekCurrent}, {Kind: "read", N: 100}})
+		run([]ioOp{{Kind: "seek", Off: off, Whence: io.SeekStart}, {Kind: "seek", Off: -announced - 1, Whence: io.SeekEnd}, {Kind: "readat", N: 10, Off: 3}, {Kind: "read", N: 2048}})
+	}
 	run([]ioOp{{Kind: "seek", Off: 10, Whence: io.SeekEnd}, {Kind: "read", N: 10}})
 	// whole image with different buffer sizes
 	for _, bs := range []int{512, 2048, 3000, 65536, 65537} {
